@@ -31,6 +31,7 @@ RULE = (
     "first-round config_batch_N.json job lists, zero sbatch, zero launches. non-trivial = >= 2 batches or a blocked "
     "job admitted together with its blocker; distinct by hash of the case"
 )
+RULE += " Later additions (DESIGN.md 9): " + 'a third of the generated cases continue with resubmit-jobs -s <file> carrying a new parameter set per group (checked against the new set); per-group time scale x1..x240 and zero-padded walltimes; HPC parameter values with underscores and hyphens.'
 ASSUMPTIONS = C.WORLD_ASSUMPTIONS + [
     "the enumerated part checks the first submitter round only (later rounds are covered by the generated part)",
 ]
